@@ -282,6 +282,26 @@ def gen_curve(rng, g, n):
                 b = bytes(rng.getrandbits(8) for _ in range(112)) if rng.randrange(4) else rng.choice([bytes(112), b"\xff" * 112])
                 P = g.Q.one_way_map(b)
                 out.append(case1(T + "one_way_map " + b.hex(), "OK " + g.enc(P), ["map", "decaf448:map"]))
+            elif g.name in ("jq255e", "jq255s", "gls254") and rng.randrange(2):
+                # the underlying field-to-group map on directed field elements (0, +-1, small values, values that make the
+                # intermediate numerators / denominators of the documented map vanish), through the verification hook
+                if g.name == "gls254":
+                    c0 = rng.choice([0, 1, 2, 3, (1 << 127) - 1, 1 << 126, rng.getrandbits(127), rng.getrandbits(127) & ~3])
+                    c1 = rng.choice([0, 1, 2, 3, (1 << 127) - 1, rng.getrandbits(127), rng.getrandbits(127)])
+                    fb = ref_gls.b254_encode((c0, c1))
+                    P = g.D.map_to_curve((c0, c1))
+                else:
+                    p_ = g.p
+                    cands = [0, 1, p_ - 1, 2, p_ - 2, (p_ + 1) // 2, (p_ - 1) // 2, 3, rng.randrange(p_), rng.randrange(p_)]
+                    for c_ in (7 * pow(4, -1, p_) % p_, (-7 * pow(4, -1, p_)) % p_, 2, p_ - 2, pow(2, -1, p_), p_ - 1, 8, p_ - 8):
+                        r_ = ref_ed._sqrt_mod(c_, p_)
+                        if r_ is not None:
+                            cands += [r_, p_ - r_]
+                    fv = rng.choice(cands)
+                    fb = fv.to_bytes(32, "little")
+                    P = g.D.map_to_curve(fv)
+                ok = g.D.decode(bytes.fromhex(g.enc(P))) is not None
+                out.append(case1(T + "map_to_curve " + fb.hex(), "OK " + g.enc(P) if ok else "ORACLE-INCONSISTENT", ["map", g.name + ":map", "map:map_to_curve-directed", g.name + ":map_to_curve"]))
             elif g.name in ("jq255e", "jq255s", "gls254"):
                 hn = rng.choice(["-", "-", "sha256", "sha512", "sha3256", "blake2s", "sha224", "sha384", "sha512224", "sha512256", "sha3224", "sha3384", "sha3512", "blake2b", "blake3"])
                 ln = rng.choice([0, 1, 20, 32, 64, 100]) if hn == "-" else {"sha224": 28, "sha256": 32, "sha384": 48, "sha512": 64, "sha512224": 28,
@@ -332,7 +352,7 @@ def main(argv):
             req += [c + ":decode:accept", c + ":decode:reject", c + ":reps", c + ":batch"]
         req += ["decode:x=0-with-sign-bit", "decode:y>=p", "decode:unused-bits-set", "decode:negated-s", "decode:negated-u", "decode:hybrid-06-07",
                 "decode:all-zero-fixed-length", "weier:0x00-infinity-accepted", "decode:field-top-bit-set", "decode:length+-1", "ristretto255:map",
-                "decaf448:map", "jq255e:map", "jq255s:map", "gls254:map", "map:hashed", "map:directed-halves"]
+                "decaf448:map", "jq255e:map", "jq255s:map", "gls254:map", "map:hashed", "map:directed-halves", "jq255e:map_to_curve", "jq255s:map_to_curve", "gls254:map_to_curve"]
         rep.require(*req)
     except Inconclusive as e:
         rep.incon.append(str(e))
